@@ -43,7 +43,7 @@ def gen_slots(rng):
             elif j < q:
                 slots.append("r0")
             elif j == q:
-                slots.append(rng.choice(["e", "r-1", "r1", "r124", "r0", "r255"]))
+                slots.append(rng.choice(["e", "r-1", "r1", "r124", "r0", "r255", "r143", "r-2"]))
             else:
                 slots.append("e")
     else:
@@ -58,7 +58,9 @@ def gen_arbitrary_file(rng):
     for i in ids:
         name = rng.choice([b"env", b"cvs", b"kernel", b"end", b"end", b"x/y"])
         skip = 1 if rng.random() < 0.3 else 0
-        ex = 0 if skip else rng.choice([0, 0, 0, 1, -1, 124])
+        # exit fields as any writer of the file may leave them: 0, the shell's 1..255, in flight (-1), and other
+        # non-zero values (negative, beyond 255): anything but 0 means the step did not complete successfully
+        ex = 0 if skip else rng.choice([0, 0, 0, 1, -1, 124, 255, 256, -2, -255, 2147483647, -2147483648, 143])
         out += row(i, name, ex, skip)
     return out
 
